@@ -218,6 +218,7 @@ def run(repo, res, tier):
     d6(repo, res)
     d7(repo, res)
     d8(repo, res)
+    d9(repo, res)
     res.assumptions += [f"triaged lazy initialisation (not traversed): {k} - {v}" for k, v in LAZY_INIT.items()]
     res.assumptions += [f"triaged cache {c}.{p}*: {v}" for (c, p), v in CACHES.items()]
     return extra
@@ -298,6 +299,37 @@ def d6(repo, res):
             if not ok:
                 res.add(Finding("D6", m.rel, "get_frames", j, f"the frame label does not show the loop element `{elem}` (the path index being drawn)", j.lineno))
     res.require(found >= 1, "anchor vanished: loop over the path indices storing style_path_frames in get_frames")
+
+
+def d9(repo, res):
+    """D9 one path index per construction: where display code takes constant entries of an object's pose paths (`_position[k]`,
+    `_orientation[k]`, `_barycenter[k]`) to build a local model that is placed along the path later, all of them are the *same* entry -
+    a local offset computed from entry -1 and un-rotated with the orientation of entry 0 puts the model at a mixed pose on rotating paths"""
+    POSE = ("_position", "_orientation", "_barycenter")
+    n = 0
+    for modname in sorted(k for k in repo.mods if k.startswith("magpylib._src.display.")):
+        m = repo.mods[modname]
+        for fname, fn in m.funcs.items():
+            idx = {}
+            for x in ast.walk(fn):
+                if isinstance(x, ast.Subscript) and isinstance(x.slice, (ast.Constant, ast.UnaryOp)) and isinstance(x.ctx, ast.Load):
+                    v = x.value
+                    is_pose = (isinstance(v, ast.Attribute) and v.attr in POSE) or (isinstance(v, ast.Call) and getattr(v.func, "id", "") == "getattr"
+                                                                                    and len(v.args) >= 2 and isinstance(v.args[1], ast.Constant) and v.args[1].value in POSE)
+                    if is_pose:
+                        root = ast.unparse(v.value if isinstance(v, ast.Attribute) else v.args[0])
+                        idx.setdefault(root, {}).setdefault(ast.unparse(x.slice), []).append(x)
+            for root, by in idx.items():
+                if sum(len(v) for v in by.values()) < 2:
+                    continue
+                n += 1
+                ok = len(by) == 1
+                res.ob(f"D9:{fname}:{root}", ok, {"rule": "D9", "function": fname, "object": root, "indices_used": {k: [norm(x) for x in v] for k, v in by.items()}})
+                if not ok:
+                    minority = min(by.values(), key=len)[0]
+                    res.add(Finding("D9", m.rel, fname, minority, f"pose-path entries {sorted(by)} of `{root}` are combined in one construction: on a path whose orientation "
+                                    "changes the local model is built from two different poses", minority.lineno))
+    res.require(n >= 1, "anchor vanished: no display function combining constant pose-path entries (make_mag_arrows confirmed by hand)")
 
 
 def d7(repo, res):
